@@ -111,6 +111,34 @@ def make_solver(case, fail=True):
     return prob, sv
 
 
+def tail_recorder():
+    """a plain recording listener to be attached BEHIND a shipped one (and alone in the reference run): it must be told exactly what a
+    listener attached alone is told - the shipped listeners are handed the same list / objects and must not consume or change them"""
+    from iOpt.method.listener import Listener
+    ev = []
+
+    class Tail(Listener):
+        def BeforeMethodStart(self, method):
+            ev.append(("start",))
+
+        def OnEndIteration(self, savedNewPoints, solution):
+            ev.append(("end", tuple(tuple(oc.f2h(c) for c in it.GetY().floatVariables) for it in savedNewPoints),
+                       int(solution.numberOfGlobalTrials)))
+
+        def OnMethodStop(self, searchData, solution, status):
+            ev.append(("stop", int(solution.numberOfGlobalTrials), bool(status)))
+    return Tail(), ev
+
+
+def compare_tail(ev_alone, ev_behind, viol, what):
+    if ev_alone != ev_behind:
+        k = next((i for i, (a, b) in enumerate(zip(ev_alone, ev_behind)) if a != b), min(len(ev_alone), len(ev_behind)))
+        viol.append({"what": "a listener attached behind " + what + " is not told what a listener attached alone is told",
+                     "first_difference_at_event": k, "alone": [list(map(str, e))[:3] for e in ev_alone[k:k + 2]],
+                     "behind": [list(map(str, e))[:3] for e in ev_behind[k:k + 2]],
+                     "events_alone": len(ev_alone), "events_behind": len(ev_behind)})
+
+
 def full_log(prob):
     return [(ph, tuple(oc.f2h(c) for c in pt), oc.f2h(v)) for ph, pt, v, *_ in prob.log]
 
@@ -385,8 +413,12 @@ def run_case_console(case):
     viol = []
     bprob, bsv = make_solver(case)
     prob, sv = make_solver(case)
+    tail_a, ev_a = tail_recorder()
+    tail_b, ev_b = tail_recorder()
+    bsv.AddListener(tail_a)
     try:
         sv.AddListener(ConsoleFullOutputListener(mode=case["mode"], iters=case["iters"]))
+        sv.AddListener(tail_b)
     except Exception as e:     # noqa: BLE001
         return [{"what": "attaching a listener raised", "error": f"{type(e).__name__}: {e}"}], {}
     base = drive(case, bsv, bprob)
@@ -397,6 +429,7 @@ def run_case_console(case):
         return [], {"skipped": "raises without listeners"}
     recs = drive(case, sv, prob)
     compare_runs(base, full_log(bprob), recs, full_log(prob), viol)
+    compare_tail(ev_a, ev_b, viol, "ConsoleFullOutputListener(mode=%r)" % case["mode"])
     nrep = 0
     for i, rec in enumerate(recs):
         if rec["op"] == "S" and not rec["raised"]:
@@ -494,6 +527,9 @@ def run_case_paint(case, fast_mlp=True):
     import iOpt.method.listener as lm
     viol = []
     bprob, bsv = make_solver(case)
+    tail_a, ev_a = tail_recorder()
+    tail_b, ev_b = tail_recorder()
+    bsv.AddListener(tail_a)
     base = drive(case, bsv, bprob)
     if any(rec["raised"] for rec in base):
         return [], {"skipped": "raises without listeners"}
@@ -501,6 +537,7 @@ def run_case_paint(case, fast_mlp=True):
         prob, sv = make_solver(case)
         try:
             sv.AddListener(getattr(lm, case["painter"])("fig.png", d, **case["kwargs"]))
+            sv.AddListener(tail_b)
         except Exception as e:     # noqa: BLE001
             return [{"what": "attaching a listener raised", "error": f"{type(e).__name__}: {e}"}], {}
         recs = drive(case, sv, prob)
@@ -509,6 +546,8 @@ def run_case_paint(case, fast_mlp=True):
     if err and re.search(r"display|DISPLAY|Tk|backend|interactive|GUI|X server", err):
         return [], {"skipped": "painter cannot run headless: " + err}
     compare_runs(base, full_log(bprob), recs, full_log(prob), viol)
+    if not (err and re.search(r"display|DISPLAY|Tk|backend|interactive|GUI|X server", err or "")):
+        compare_tail(ev_a, ev_b, viol, case["painter"])
     known = []
     if err and "interpolation" in (case["kwargs"].get("calc"), case["kwargs"].get("mode")) and \
             re.match(r"(LinAlgError|ValueError)", err):
